@@ -2,7 +2,8 @@
 //! scope, as `body`" - whatever the body is made of. Every ordered forest of at most N nodes over
 //!
 //!   leaves    text, a print of a caller variable, an include (whose template prints the same
-//!             variable and makes a call with a body of its own), a loop of the caller
+//!             variable and makes a call with a body of its own), a loop of the caller, the counters
+//!             of the loop the whole call sits in
 //!   wrappers  a nested call with a body, a set block printed right after, a filter section
 //!
 //! is written as the body of one outer call and rendered. Each wrapper captures what is inside it,
@@ -11,7 +12,7 @@
 //!
 //! The forests with exactly n nodes are ranked by counting (no list is materialised):
 //!   F(0) = 1, F(n) = sum_{k=1..n} T(k) F(n-k)      a first tree of k nodes, then the rest
-//!   T(1) = 4 + 3, T(k) = 3 F(k-1)                  a leaf or an empty wrapper; a wrapper around a forest
+//!   T(1) = 5 + 3, T(k) = 3 F(k-1)                  a leaf or an empty wrapper; a wrapper around a forest
 
 #[derive(Clone, Debug, PartialEq, Eq)]
 pub enum Node {
@@ -19,6 +20,10 @@ pub enum Node {
     Var,
     Include,
     Loop,
+    /// `{{ loop.index }}{{ loop.last }}` of the CALLER's loop (the whole program sits in a loop of
+    /// one iteration): a body is rendered in the caller's scope, its loop counters included
+    /// (seeded change C05-14 stopped looking for an enclosing loop at the first capture)
+    LoopField,
     Call(Vec<Node>),
     SetBlock(Vec<Node>),
     Filter(Vec<Node>),
@@ -38,7 +43,7 @@ pub fn forests(n: usize) -> u64 {
 }
 
 fn trees(k: usize) -> u64 {
-    if k == 1 { 7 } else { 3 * forests(k - 1) }
+    if k == 1 { 8 } else { 3 * forests(k - 1) }
 }
 
 pub fn unrank_forest(n: usize, mut idx: u64) -> Vec<Node> {
@@ -72,7 +77,8 @@ fn unrank_tree(k: usize, idx: u64) -> Node {
             1 => Node::Var,
             2 => Node::Include,
             3 => Node::Loop,
-            w => wrapper(w - 4, vec![]),
+            4 => Node::LoopField,
+            w => wrapper(w - 5, vec![]),
         };
     }
     let f = forests(k - 1);
@@ -86,6 +92,7 @@ fn write_source(nodes: &[Node], counter: &mut usize, out: &mut String) {
             Node::Var => out.push_str("{{ cv }}"),
             Node::Include => out.push_str(&format!("{{% include \"part{EXT}\" %}}")),
             Node::Loop => out.push_str("{% for i in [1, 2] %}{{ i }}{{ cv }}{% endfor %}"),
+            Node::LoopField => out.push_str("{{ loop.index }}{{ loop.last }}"),
             Node::Call(inner) => {
                 out.push_str("{% <Box> %}");
                 write_source(inner, counter, out);
@@ -109,9 +116,9 @@ fn write_source(nodes: &[Node], counter: &mut usize, out: &mut String) {
 
 /// The forest as the body of one outer call.
 pub fn source(forest: &[Node]) -> String {
-    let mut s = String::from("{% <Box> %}");
+    let mut s = String::from("{% for z in [7] %}{% <Box> %}");
     write_source(forest, &mut 0, &mut s);
-    s.push_str("{% </Box> %}");
+    s.push_str("{% </Box> %}{% endfor %}");
     s
 }
 
@@ -123,6 +130,7 @@ fn text_of(nodes: &[Node]) -> String {
             Node::Var => CALLER_VAR.1.to_string(),
             Node::Include => PART_TEXT.to_string(),
             Node::Loop => format!("1{0}2{0}", CALLER_VAR.1),
+            Node::LoopField => "1true".to_string(),
             Node::Call(inner) => format!("<b>{}</b>", text_of(inner)),
             Node::SetBlock(inner) => format!("[{}]", text_of(inner)),
             Node::Filter(inner) => text_of(inner).to_uppercase(),
